@@ -88,3 +88,40 @@ func TestTicker(t *testing.T) {
 	}
 	run.Floor("ticker_epochs", 100)
 }
+
+// TestFaultedReask: store-backed pools with a store write failure armed at every position: a holder that asks
+// again (or renews) while the store refuses the write must keep its assignment (C01: nobody else may get it).
+func TestFaultedReask(t *testing.T) {
+	depth := run.Pick(4, 6)
+	var wg sync.WaitGroup
+	sem := make(chan struct{}, runtime.NumCPU())
+	for _, s := range pools.SmallSpecs() {
+		s := s
+		caps := pools.ProbeCaps(s)
+		if !caps.Fault {
+			continue
+		}
+		wg.Add(1)
+		sem <- struct{}{}
+		go func() {
+			defer wg.Done()
+			defer func() { <-sem }()
+			alpha := pools.Alphabet(caps, 2, true)
+			rep := reporter(s)
+			n := pools.Enumerate(alpha, depth, func(h []pools.Op) {
+				r, err := pools.RunHistory(s, h, true, rep)
+				if err != nil {
+					t.Errorf("new %s: %v", s.Impl, err)
+					return
+				}
+				record(s, r, h)
+				if r.Obs.Ops["fail"] > 0 {
+					run.Count("faulted_histories", 1)
+				}
+			})
+			run.Count("faulted_exhaustive_histories", n)
+		}()
+	}
+	wg.Wait()
+	run.Floor("faulted_histories", 1000)
+}
